@@ -249,6 +249,14 @@ def text_node(ctx, interp_p=2):
     parts = []
     n = d(st.integers(1, 3))
     for _ in range(n):
+        if ctx.opts.get("repeat_probes") and d(st.integers(0, 5)) == 0:
+            # state of a loop as seen from anywhere (also outside the loop)
+            parts.append(["interp", ["pipe", [
+                ["attr", ["attr", ["var", "repeat"],
+                          d(st.sampled_from(LOOPVARS))],
+                 d(st.sampled_from(["length", "index"]))],
+                ["const", "'norep'"]]]])
+            continue
         if d(st.integers(0, interp_p)) == 0:
             parts.append(["interp", rec(ctx, "t", scalar_expr(ctx))])
         else:
@@ -399,6 +407,9 @@ def element(ctx, depth):
             else:
                 e = rec(ctx, "at", scalar_expr(ctx))
             entries.append([n, e])
+        if ctx.opts.get("dict_attrs") and d(st.integers(0, 2)) == 0:
+            entries.insert(d(st.integers(0, len(entries))),
+                           [None, ["var", "d0"]])
         # dynamic override only onto static attributes without ${}
         el["attrs"] = [a for a in el["attrs"] if not (
             a[1].lower() in seen and any(p[0] == "interp" for p in a[3]))]
